@@ -21,6 +21,7 @@ func NewPropertiesDecoder() Decoder {
 }
 
 func (dec *propertiesDecoder) Init(reader io.Reader) error {
+	verifYield("decoder.Init")
 	dec.reader = reader
 	dec.finished = false
 	return nil
@@ -90,6 +91,7 @@ func (dec *propertiesDecoder) applyProperty(context Context, properties *propert
 }
 
 func (dec *propertiesDecoder) Decode() (*CandidateNode, error) {
+	verifYield("decoder.Decode")
 	if dec.finished {
 		return nil, io.EOF
 	}
